@@ -137,6 +137,10 @@ mod probe;
 mod runtime;
 #[cfg(test)]
 mod testing;
+#[cfg(feature = "verif-hooks")]
+mod verif_hooks;
+#[cfg(feature = "verif-hooks")]
+pub use crate::verif_hooks::VerifSnapshot;
 
 use crate::{
     broadcast::Broadcasts,
